@@ -14,8 +14,9 @@
 (***************************************************************************)
 EXTENDS Integers, Sequences, FiniteSets, TLC
 
-CONSTANTS Layout,     \* "cartesian" (f, re, im) | "polar" (f, mod, phase) | "five" (all columns)
-          OptMode     \* "single": one file-option deviation at a time | "product"
+CONSTANTS Layout,     \* "cartesian" (f, re, im) | "polar" (f, mod, phase) | "five" (all columns) | "instrument"
+          OptMode,    \* "single": one file-option deviation at a time | "product"
+          Reduce      \* "none" | "nosuffix" (no unit suffixes) | "few" (two aliases per role, no suffixes)
 
 VARIABLES hdr, opts, det
 vars == <<hdr, opts, det>>
@@ -101,13 +102,15 @@ SplitTotal ==       \* every sequence is partitioned or refused, never an index 
 \* ---------------------------------------------------------------------------
 \* configurations
 \* ---------------------------------------------------------------------------
-Roles == CASE Layout = "cartesian" -> {"frequency", "real", "imaginary"}
+\* instrument text layouts: the column convention is fixed by the format (f, Z', +-Z'')
+Instruments == {"mpt", "i2b", "p00", "dfr", "dta", "z"}
+Roles == CASE Layout \in {"cartesian", "instrument"} -> {"frequency", "real", "imaginary"}
            [] Layout = "polar" -> {"frequency", "magnitude", "phase"}
            [] Layout = "five" -> {"frequency", "real", "imaginary", "magnitude", "phase"}
 Perms(S) == {p \in [1..Cardinality(S) -> S] : \A i, j \in 1..Cardinality(S) : i # j => p[i] # p[j]}
 Markers(k) == IF k \in {"real", "imaginary", "phase"} THEN {"", Minus, UMinus} ELSE {""}
 Suffixes == {"", " (ohm)", "/hz"}
-AliasChoices(k) == IF Layout = "five" THEN 1..2 ELSE 1..Len(Aliases(k))
+AliasChoices(k) == IF Layout = "five" \/ Reduce = "few" THEN 1..2 ELSE 1..Len(Aliases(k))
 
 Cell(c) == c.marker \o Aliases(c.role)[c.alias] \o c.suffix
 
@@ -124,16 +127,25 @@ FileOpts ==
 
 CellChoices(k) ==
     {[role |-> k, alias |-> a, marker |-> m, suffix |-> sf] :
-        a \in AliasChoices(k), m \in (IF Layout = "five" THEN {""} ELSE Markers(k)), sf \in (IF Layout = "five" THEN {""} ELSE Suffixes)}
+        a \in AliasChoices(k), m \in (IF Layout = "five" THEN {""} ELSE Markers(k)),
+        sf \in (IF Layout = "five" \/ Reduce # "none" THEN {""} ELSE Suffixes)}
 RECURSIVE Headers(_, _)
 Headers(p, i) ==      \* all header rows for the column order p, from column i on
     IF i > Len(p) THEN {<<>>} ELSE {<<c>> \o rest : c \in CellChoices(p[i]), rest \in Headers(p, i + 1)}
 
+InstrumentOpts ==
+    {[BaseOpts EXCEPT !.sep = fmt, !.order = o, !.sweeps = sw, !.points = n] :
+        fmt \in Instruments, o \in {"desc", "asc"}, sw \in 1..2, n \in {1, 2, 4}}
+
 Init ==
-    /\ hdr \in UNION {Headers(p, 1) : p \in Perms(Roles)}
-    /\ opts \in FileOpts
-    \* the documented contract: header text never contains the separator itself
-    /\ \A i \in 1..Len(hdr) : (opts.sep = "space" => (hdr[i].suffix # " (ohm)" /\ Aliases(hdr[i].role)[hdr[i].alias] \notin {"z im", "z re"}))
+    /\ hdr \in (IF Layout = "instrument"
+                THEN {[i \in 1..3 |-> [role |-> <<"frequency", "real", "imaginary">>[i], alias |-> 1, marker |-> "", suffix |-> ""]]}
+                ELSE UNION {Headers(p, 1) : p \in Perms(Roles)})
+    /\ opts \in (IF Layout = "instrument" THEN {o \in InstrumentOpts : o.points = 1 => o.sweeps = 1} ELSE FileOpts)
+    \* the documented contract: header text never contains the separator itself, and space- or
+    \* semicolon-separated files use space-free headers (the separator fallback of parse_csv tries
+    \* tab, blank, semicolon, comma in that order)
+    /\ \A i \in 1..Len(hdr) : (opts.sep \in {"space", ";"} => (hdr[i].suffix # " (ohm)" /\ Aliases(hdr[i].role)[hdr[i].alias] \notin {"z im", "z re"}))
     /\ det = Detect([i \in 1..Len(hdr) |-> Cell(hdr[i])])
 Next == FALSE /\ UNCHANGED vars
 Spec == Init /\ [][Next]_vars
